@@ -712,6 +712,11 @@ var raceFrameRe = regexp.MustCompile(`(?m)^  ([A-Za-z0-9_./*()\-]+)\(`)
 
 // raceKey de-duplicates race reports by the innermost go-ipld-prime frames of the two accesses.
 func raceKey(blk string) string {
+	// one recorded class: the write side is bindnode's schema inference accumulating into
+	// the process-wide default type system (the reading side varies with what the readers do)
+	if strings.Contains(blk, "bindnode.inferSchema") && strings.Contains(blk, "schema.(*TypeSystem).Accumulate") {
+		return "bindnode.inferSchema-writes-default-typesystem"
+	}
 	var frames []string
 	for _, part := range strings.Split(blk, "\n\n") {
 		for _, m := range raceFrameRe.FindAllStringSubmatch(part, -1) {
